@@ -14,7 +14,7 @@ LiveNext ==
   \/ \E c \in Clients : Prepare(c) \/ IntroduceBatch(c) \/ Return(c)
   \/ \E r \in Readers : ReaderOpen(r) \/ ReaderClose(r)
   \/ PGrab \/ PMemMergeWrite \/ PMemMergeLoad \/ PMemMergeIntro \/ PPersistSeg \/ PLoadSeg
-  \/ PIntroPersist \/ PPersistSnap \/ PCommit \/ PAck
+  \/ PSendPersist \/ IApplyPersist \/ PPersistSnap \/ PCommit \/ PAck
   \/ PCleanupSnap \/ PCleanupSeg \/ PCleanupDone \/ PFail
   \/ MWake \/ MPlan \/ MLoad \/ MIntro \/ MDone \/ MFail
   \/ CloseCall \/ IExit \/ PExit \/ MExit \/ CloseDone
